@@ -38,7 +38,7 @@ prop("C01", ["TAB-1", "TAB-3", "TAB-4", "ENC-1", "ENC-2", "ENC-5", "WID-1", "WID
      "bytes are emitted as opcode, post-byte, operand.",
      "that every grammar-valid operand string is classified into the right operand class, and value-level correctness for all 2^16 operand values beyond the width/sign facts.",
      ASM_ASSUME)
-prop("C02", ["TAB-2", "LAY-1", "LAY-3", "LAY-5", "ENC-2", "ENC-3", "WID-1"],
+prop("C02", ["TAB-2", "LAY-1", "LAY-3", "LAY-5", "ENC-2", "ENC-3", "WID-1", "REL-3"],
      "table sizes equal opcode length plus operand bytes; per return path of every translate() the bytes emitted equal the size reported and max_size >= size; the passes of "
      "translate_statements run in the order expansion, collection, resolution, translation, sizing, addressing, fix-up, back-patch, each over all statements; the address pass is a single "
      "forward accumulation of code_pkg.size; every store into the symbol table is dominated by the redefinition check and undefined symbols raise; listing and image concatenate the same three fields.",
@@ -49,7 +49,7 @@ prop("C03", ["REL-1", "REL-3", "REL-5", "ENC-1", "ENC-3"],
      "that sums max_size over a window covering the displacement including the instruction itself, thresholds 127/128; label+n operands take their index through the address-expression predicate "
      "at all three sites; the PCR offset is target - own address - own size rendered at the chosen width; label,PCR offers post-bytes 8C/8D (9C/9D).",
      "numeric correctness at every distance and for every combination of mutually dependent unsized statements (only margins and identities).", ASM_ASSUME)
-prop("C04", ["EXP-1", "LAY-1", "LAY-3", "WID-3", "ENC-6", "ESC-1"],
+prop("C04", ["EXP-1", "LAY-1", "LAY-3", "WID-3", "ENC-6", "ESC-1", "REL-3", "REL-5"],
      "each operator arm of ExpressionValue.resolve applies its own operator to (left, right) in that order and both operands are looked up independently; symbol collection precedes resolution "
      "over all statements (definition order irrelevant); undefined symbols raise; width predicates and two's-complement modulus follow the field width; statement-level handlers turn arithmetic errors "
      "(division by zero, out-of-range results) into a TranslationError.",
@@ -72,16 +72,16 @@ prop("C08", ["DSK-1", "DSK-2", "DSK-4", "DSK-6", "DSK-7", "DSK-12"],
      "image size and track-17 offsets; FAT encoding written and read (links, last-granule marker with 1-9 sectors, free marker FF only); blanking confined to FAT bytes 68-255; allocation only "
      "from granules whose FAT byte is FF, marked before the next search; fill order a permutation of 0..67; implied length (sectors, last-sector bytes) equals the stream length by construction.",
      "chain disjointness and length arithmetic for concrete file sequences.")
-prop("C09", ["VF-1", "VF-4", "DSK-7", "DSK-6", "CAS-4", "CAS-3", "DET-2"],
+prop("C09", ["VF-1", "VF-4", "VF-6", "DSK-7", "DSK-6", "CAS-4", "CAS-3", "DET-2"],
      "append = list the existing image, append the new file at the end, rebuild the whole list in order into a fresh container; cassette writers only append to the buffer; disk allocation only takes "
      "free granules and free directory slots; a fresh DiskFile owns its own buffer (no shared class-level image); sniffing order disk, cassette, binary with matching kinds.",
      "the property over histories of interleaved add/save/re-open; kind recognition by content (recorded finding VF-6).")
-prop("C10", ["VF-1", "VF-2", "VF-3", "VF-4", "CLI-1", "CLI-3"],
+prop("C10", ["VF-1", "VF-2", "VF-3", "VF-4", "VF-6", "CLI-1", "CLI-3"],
      "every path to a host write in save_virtual_file takes the false edge of `file_exists and not append_mode`, whose true edge only raises; the only host write is open(name, 'wb') in "
      "SourceFile.write_binary_contents, reached only through write_file from save_virtual_file and writing the whole buffer; file_exists is set exactly under os.path.exists; a kind mismatch raises; "
      "every CLI save site goes construct -> open -> add* -> save(append_mode=args.append) with the container kind of its switch; handlers report the error.",
      "nothing further of the control-flow part; content sniffing of arbitrary bytes is a recorded finding.")
-prop("C11", ["CLI-1", "VF-1", "VF-3", "CAS-3", "CAS-1", "DSK-2", "LAY-1"],
+prop("C11", ["CLI-1", "VF-1", "VF-3", "CAS-3", "CAS-1", "DSK-2", "DSK-3", "DSK-12", "LAY-1"],
      "the single CoCoFile built by assembler.main takes name = NAM or --name, load = exec = origin, data = get_binary_array() of the Program that was assembled, type 02, data type 00; each switch "
      "builds the container of its kind and adds that very object; cassette/disk blocks are dominated by the no-name guard; BinaryFile appends the data only; containers do not consume the data "
      "(the same object is written to several containers).",
